@@ -152,12 +152,12 @@ def check_c12_canon(m, result, old_fp):
         f = {}
         for t, (v, d) in by_tag_in.items():
             w, d2 = by_tag_out[t]
-            if d != d2:
+            if any(k not in d2 or d2[k] != x for k, x in d.items()):  # every input attribute kept (attributes the library adds are fine)
                 return {"what": "atom attributes changed", "tag": t, "before": repr(d), "after": repr(d2)}
             f[v] = w
         ein = {frozenset((f[u], f[v])): dict(d) for u, v, d in m.edges(data=True)}
         eout = {frozenset((u, v)): dict(d) for u, v, d in result.edges(data=True)}
-        if ein != eout:
+        if set(ein) != set(eout) or any(k not in eout[e] or eout[e][k] != x for e, d in ein.items() for k, x in d.items()):
             bad = [sorted(e) for e in set(ein) ^ set(eout)][:5] or [sorted(e) for e in ein if ein[e] != eout.get(e)][:5]
             return {"what": "bonds or bond attributes not carried by the renaming", "differing": bad, "input": _graph_json(m)}
     else:
@@ -444,7 +444,7 @@ def check_c09(graph, result):
                 return {"what": f"{key} differs after read-back", "position": k, "written_for": d.get(key), "read": b.get(key), "text": result[:1500]}
         for key in ("x_coord", "y_coord", "z_coord"):
             want = float(f"{d.get(key, 0):.6f}")
-            got = b[key]
+            got = float(f"{b[key]:.6f}")  # "to six decimals": a writer that keeps more digits is not a violation
             if not (got == want):
                 return {"what": "coordinate differs after read-back (six decimals)", "position": k, "key": key, "want": want, "got": got, "text": result[:1500]}
     ein = {frozenset((pos[u], pos[v])): d.get("bond_type", 1) for u, v, d in graph.edges(data=True)}
